@@ -174,7 +174,7 @@ UNIT = {
                                 ('numbers_so_far', 'forall |j: int| 0 <= j < i_ ==> (#[trigger] values@[j]) is Number'),
                                 ('sum_so_far', 'sum == sum_upto(values@, i_ as int)')]}}),
         bif('mean', body_prefix='', loops=1,
-            rewrites=[R3, ('RX', 'R11', r'sum \+= \*n;', 'num_add_assign(&mut sum, *n);', 1), ('RX', 'R11', r'FeelNumber::zero\(\)', 'num_zero()', 1),
+            rewrites=[R3, ('RX', 'R11', r'sum \+= \*n([;,])', r'num_add_assign(&mut sum, *n)\1', 1), ('RX', 'R11', r'FeelNumber::zero\(\)', 'num_zero()', 1),
                       ('RX', 'R11', r'sum / values\.len\(\)\.into\(\)', 'num_div_count(sum, values.len())', 1)],
             ensures=[('sum_divided_by_the_number_of_items', '(values@.len() > 0 && all_numbers(values@)) ==> r == Value::Number(n_div_count(sum0_upto(values@, values@.len() as int), values@.len() as int))'),
                      ('null_for_no_or_other_items', '!(values@.len() > 0 && all_numbers(values@)) ==> r is Null')],
